@@ -1330,6 +1330,12 @@ func gen(seed uint64, n int, outDir, corpusDir string) {
 		}
 		count++
 	}
+	// separate campaign class: the real launch / fetcher / loop code with stub peers
+	lc := runLaunchCampaign(res, "", "", nil)
+	sb.WriteString(lc.coqCase())
+	res.CaseDescs = append(res.CaseDescs, map[string]string{"campaign": "launch histories"})
+	res.OracleHits = append(res.OracleHits, lc.hits...)
+	count++
 	for _, c := range loadCorpus(corpusDir) {
 		emit(c)
 		res.Count("corpus")
@@ -1351,6 +1357,19 @@ func replay(file string) {
 	if err != nil {
 		fmt.Println(err)
 		os.Exit(2)
+	}
+	var lh launchHit
+	if json.Unmarshal(b, &lh) == nil && lh.Launch != "" {
+		res := vf.NewResult("C19", 0)
+		lc := runLaunchCampaign(res, lh.Launch, lh.Entry, lh.Source)
+		fmt.Printf("launch history %s via %s, repeated: %v\n", lh.Launch, lh.Entry, res.Distribution)
+		if len(lc.hits) > 0 {
+			h := lc.hits[0].(launchHit)
+			fmt.Printf("ORACLE VIOLATION: %s: %s\n  history: %s\n", h.What, h.Detail, strings.Join(h.Steps, "; "))
+			os.Exit(1)
+		}
+		fmt.Println("no violation")
+		return
 	}
 	c := &CaseIn{}
 	if err := json.Unmarshal(b, c); err != nil || c.Mode == "" {
